@@ -131,10 +131,10 @@ def check_idx(an, facts, b, I, C, vers_now):
         if vers_now.get(R, ("e",)) != ver:
             return False, "stale-pointer(%s)" % R
     bound = mk_len(C, an)
-    if I[0] == "const" and bound[0] == "const" and isinstance(I[2], int) and I[2] < bound[2]:
-        return True, "CONST"
-    if facts.holds(b, lambda rel: rel.lt(I, bound)):
-        return True, "GUARD"
+    crate = an.crate
+    how = bounded(crate, an, facts, b, I, C, vers=vers_now)
+    if how:
+        return True, how
     return False, ("need", I, bound)
 
 
@@ -149,6 +149,14 @@ def discharge_site(s, facts):
         if idx0 is not None:
             return False, "double-offset"
         if kind != "buf":
+            Bs = root_bounds(an.crate, an, P)
+            for B in Bs:
+                how = bounded(an.crate, an, facts, s.b, I, None, bound_term=B, vers=ev["vers"])
+                if how:
+                    s.needs_live = True
+                    return True, how + "+CAPTURE"
+            if Bs:
+                return False, ("need", I, Bs[0])
             return False, ("unknown-root", C)
         return check_idx(an, facts, s.b, I, C, ev["vers"])
     if k in ("call:slice::get_unchecked", "call:slice::get_unchecked_mut"):
@@ -194,3 +202,287 @@ def pointer_term_at(an, s):
         for v in an.defs_at.get((b, i), ()):
             cur[v] = ("d", b, i)
     return an.var_term(cur, "v%d" % L)
+
+
+# ---------------------------------------------------------------------------
+# general index-bound prover
+
+CONTIG = "graaf::op::contiguous_order::ContiguousOrder"
+ORD_KEY = "graaf::op::order::Order::order"
+
+
+def type_is_contiguous(crate, an, D):
+    """every digraph value that region D can hold has vertex set 0..contiguous_order()"""
+    prog = crate.prog
+    ri = an.region_info.get(D)
+    if ri is None:
+        return False, "unknown region type"
+    ty = ri["ty"]
+    impls = prog.implements.get(CONTIG, set())
+    if ty["k"] == "adt":
+        nm = ty["name"]
+        if nm in impls or any(x.startswith(nm + "<") for x in impls):
+            return True, "type %s implements ContiguousOrder" % nm
+        return False, "type %s is not a ContiguousOrder implementor" % nm
+    if ty["k"] == "param":
+        P = ty["name"]
+        cands = None
+        for pr in an.f.get("predicates", []):
+            if pr.get("kind") == "trait" and pr["self"].get("k") == "param" and pr["self"]["name"] == P:
+                if pr["trait"] == CONTIG:
+                    return True, "bound %s: ContiguousOrder" % P
+                im = prog.implements.get(pr["trait"])
+                if im is not None:
+                    cands = set(im) if cands is None else (cands & im)
+        for pr in an.f.get("predicates", []):
+            if pr.get("kind") == "projection" and pr["self"].get("k") == "param" and pr["self"]["name"] == P \
+                    and cands is not None:
+                term = pr["term"]
+                cands = {c for c in cands if ("<" not in c) is False and c.endswith("<%s>" % term)} \
+                    if any("<" in c for c in cands) else cands
+        if cands is None:
+            return False, "no trait bound restricts %s" % P
+        graaf = {c for c in cands}
+        if graaf and all(c in impls for c in graaf):
+            return True, "every candidate type of %s (%s) implements ContiguousOrder" % (P, ",".join(sorted(graaf)))
+        return False, "candidate types of %s include a non-contiguous one: %s" % (P, ",".join(sorted(graaf - impls)))
+    return False, "unsupported digraph type"
+
+
+def cord_term(crate, an, D, vers):
+    """contiguous_order(D) as a term at the given versions"""
+    from .core import _subst, _NoInline
+    prog = crate.prog
+    ri = an.region_info.get(D)
+    ty = ri["ty"] if ri else None
+    if ty and ty["k"] == "adt":
+        # concrete representation: use its accessor summary
+        for trait, item in ((CONTIG, "contiguous_order"), ("graaf::op::order::Order", "order")):
+            for im in prog.impls:
+                if im["trait"] == trait and im["self"].get("path") == ty["path"]:
+                    for it in im["items"]:
+                        if it["name"] == item and it["path"] in prog.summaries:
+                            try:
+                                return _subst(an, prog.summaries[it["path"]][0], [("addr", D, None)], vers)
+                            except _NoInline:
+                                pass
+    at = an.arg_for_call(("addr", D, None), vers, False)
+    return ("call", ORD_KEY, (), (at,))
+
+
+def bound_class(crate, an, C, vers, bound_term=None):
+    """terms equal to len(C) by construction-site invariants"""
+    inv = crate.inv
+    out = []
+    base = bound_term if bound_term is not None else mk_len(C, an)
+    out.append(base)
+    work = [base]
+    seen = {base}
+    while work:
+        t = work.pop()
+        new = []
+        if t[0] == "len" and t[1][0] == "at":
+            R = t[1][1]
+            ri = an.region_info.get(R)
+            if ri and ri["chain"] and len(ri["chain"]) in (1, 2) and ri["chain"][0][0] in crate.prog.adts:
+                S = ri["chain"][0][0]
+                fp = tuple(f for _, f in ri["chain"])
+                from .inv import fill_hole
+                for (tfp, g, kind, tmpl) in inv.len_templates(S):
+                    if tfp != fp:
+                        continue
+                    baseR = R[: -len("." + ".".join(fp))]
+                    if kind == "order":
+                        G = baseR + "." + g + "*"
+                        if G in an.regions or (baseR + "." + g) in an.regions:
+                            an.regions.add(G)
+                            at = an.arg_for_call(("addr", G, None), vers, False)
+                            new.append(fill_hole(tmpl, ("call", ORD_KEY, (), (at,))))
+                    else:
+                        Gr = baseR + "." + g
+                        new.append(fill_hole(tmpl, an.load_region(Gr, None, vers)))
+        if t[0] == "len" and t[1][0] == "at" and t[1][2] is None and "." in t[1][1]:
+            # field of a local struct that was returned by a crate constructor
+            R, ver = t[1][1], t[1][3]
+            root, fld = R.rsplit(".", 1)
+            v = an.term_of.get((root, ver))
+            if v is not None and v[0] == "call":
+                fpath = crate.prog.key_to_path.get(v[1])
+                if fpath is not None:
+                    L = inv.ctor_len(fpath, fld)
+                    if L is not None:
+                        new.append(subst_args(L, v[3]))
+        if t[0] == "call" and t[1] == ORD_KEY and t[3] and t[3][0][0] == "at":
+            Gs = t[3][0][1]
+            if Gs.endswith("*"):
+                X = Gs[:-1]
+                ri = an.region_info.get(X)
+                if ri and ri["chain"] and len(ri["chain"]) == 1:
+                    S, G = ri["chain"][0]
+                    if S in crate.prog.adts:
+                        for (f, g, kind) in inv.leneq(S):
+                            if g == G:
+                                baseR = X[: -len("." + G)]
+                                Fr = baseR + "." + f
+                                at = an.arg_for_call(("addr", Fr, None), vers, True)
+                                new.append(("len", at))
+        for n in new:
+            if n not in seen:
+                seen.add(n)
+                out.append(n)
+                work.append(n)
+    return out
+
+
+def bounded(crate, an, fx, b, I, C, bound_term=None, vers=None, depth=0):
+    """prove I < len(C) (or I < bound_term) at entry of block b; returns the
+    name of the strategy or None"""
+    from .origin import Origins, payload_of
+    from .inv import POP_KEYS
+    if depth > 3:
+        return None
+    if vers is None:
+        vers = an.ver_in.get(b, {})
+    bounds = bound_class(crate, an, C, vers, bound_term)
+    # CONST / GUARD
+    for B in bounds:
+        if I[0] == "const" and B[0] == "const" and isinstance(I[2], int) and isinstance(B[2], int) and I[2] < B[2]:
+            return "CONST"
+        if fx.holds(b, lambda rel, B=B: rel.lt(I, B)):
+            return "GUARD"
+    inv = crate.inv
+    # WORKLIST / YIELD
+    site, path = payload_of(I)
+    if site is not None:
+        ev = fx.an_call_at(site[1])
+        if ev is not None and ev["key"] in POP_KEYS and ev["args"] and ev["args"][0][0] == "addr":
+            R = ev["args"][0][1]
+            ri = an.region_info.get(R)
+            if ri and ri["chain"] and len(ri["chain"]) == 1:
+                S, W = ri["chain"][0]
+                baseR = R[: -len("." + W)]
+                for B in bounds:
+                    if B[0] == "len" and B[1][0] == "at" and B[1][1].startswith(baseR + "."):
+                        F = B[1][1][len(baseR) + 1:]
+                        if "." not in F and "#" not in F and "*" not in F and inv.worklist_bound(S, W, path, F):
+                            return "WORKLIST"
+        if ev is not None and ev["key"] == "core::iter::traits::iterator::Iterator::next":
+            nf, baseR = self_iterator(crate, an, fx, ev)
+            if nf is not None:
+                for B in bounds:
+                    if B[0] == "len" and B[1][0] == "at" and B[1][1].startswith(baseR + "."):
+                        F = B[1][1][len(baseR) + 1:]
+                        if "." not in F and "#" not in F and "*" not in F and inv.yield_bound(nf, path, F):
+                            return "YIELD"
+    # ROWMAJOR / BITS lemmas
+    for B in bounds:
+        N = sq_of(B)
+        if N is not None:
+            ab = rowmajor(I, N)
+            if ab is not None and all(bounded(crate, an, fx, b, x, None, bound_term=N, vers=vers, depth=depth + 1)
+                                      for x in ab):
+                return "ROWMAJOR"
+        if B[0] == "call" and B[1] == "usize::div_ceil" and len(B[3]) == 2 and B[3][1] == ("const", "usize", 64):
+            N = sq_of(B[3][0])
+            if N is not None and I[0] == "bin" and I[1] == "Shr" and I[3] == ("const", "i32", 6) or \
+                    (N is not None and I[0] == "bin" and I[1] == "Shr" and I[3][0] == "const" and I[3][2] == 6):
+                ab = rowmajor(I[2], N)
+                if ab is not None and all(bounded(crate, an, fx, b, x, None, bound_term=N, vers=vers, depth=depth + 1)
+                                          for x in ab):
+                    return "BITS"
+    # INV: contiguity contract
+    org = Origins(crate, an, fx).origin(I)
+    if org is not None:
+        kind, D = org
+        ok, why = type_is_contiguous(crate, an, D)
+        if ok:
+            ct = cord_term(crate, an, D, vers)
+            for B in bounds:
+                if B == ct or fx.holds(b, lambda rel, B=B: rel.le(ct, B)):
+                    return "INV"
+    return None
+
+
+def self_iterator(crate, an, fx, ev):
+    """if the receiver of this Iterator::next call is (a by_ref / &mut of) a crate
+    struct that implements Iterator itself: (path of its next, base region)"""
+    prog = crate.prog
+    a0 = ev["args"][0]
+    base = None
+    if a0[0] == "arg":
+        base = an.region_of_pointer(a0)
+    elif a0[0] == "addr" and a0[2] is None:
+        d = fx.iter_desc(ev)
+        if d is not None and d != "CYCLE":
+            if d[0] == "arg":
+                base = an.region_of_pointer(d)
+            elif d[0] == "call" and d[1] == "core::iter::traits::iterator::Iterator::by_ref" and d[3]:
+                x = d[3][0]
+                base = x[1] if x[0] == "at" else an.region_of_pointer(x)
+            elif d[0] == "at":
+                base = d[1]
+    if base is None:
+        return None, None
+    ri = an.region_info.get(base)
+    if not ri or ri["ty"].get("k") != "adt":
+        return None, None
+    S = ri["ty"]["path"]
+    for im in prog.impls:
+        if im["trait"] == "core::iter::traits::iterator::Iterator" and im["self"].get("path") == S:
+            for it in im["items"]:
+                if it["name"] == "next":
+                    return it["path"], base
+    return None, None
+
+
+def subst_args(t, args):
+    if not isinstance(t, tuple) or not t:
+        return t
+    if t[0] == "arg":
+        return args[t[1] - 1] if t[1] - 1 < len(args) else t
+    return tuple(subst_args(x, args) if isinstance(x, tuple) else x for x in t)
+
+
+def sq_of(B):
+    """N when B is the checked square of N: payload of usize::checked_mul(N, N)"""
+    if B[0] == "field" and B[1][0] == "dc" and B[1][2] == "Some" and B[1][1][0] == "call" \
+            and B[1][1][1] == "usize::checked_mul" and len(B[1][1][3]) == 2 and B[1][1][3][0] == B[1][1][3][1]:
+        return B[1][1][3][0]
+    return None
+
+
+def rowmajor(I, N):
+    """(a, b) when I == a * N + b (lemma L-ROWMAJOR), else None"""
+    if I[0] != "bin" or I[1] != "Add":
+        return None
+    for m, o in ((I[2], I[3]), (I[3], I[2])):
+        if m[0] == "bin" and m[1] == "Mul":
+            if m[2] == N:
+                return (m[3], o)
+            if m[3] == N:
+                return (m[2], o)
+    return None
+
+
+def root_bounds(crate, an, ptrterm, depth=0):
+    """candidate lengths (terms of `an`) of the buffer a raw pointer term points
+    into, following closure captures up to the function that created the pointer"""
+    from .closures import capture_map
+    if depth > 4:
+        return []
+    C, idx, kind = ptr_root(ptrterm)
+    if idx is not None:
+        return []
+    if kind == "buf":
+        return [mk_len(C, an)]
+    cm = capture_map(crate, an)
+    if cm is None or C is None:
+        return []
+    out = []
+    for pv, cv in cm.valmap:
+        if C == cv:
+            for pb in root_bounds(crate, cm.pan, pv, depth + 1):
+                for t in cm.tr_all(pb):
+                    if t not in out:
+                        out.append(t)
+    return out
